@@ -491,29 +491,43 @@ def scon : Name := "_scon".toList
 def slogcon : Name := "_slogcon".toList
 def sobj : Name := "_sobj".toList
 
+/-- `if (WantNames())` -/
+def wantsNames (mode : Nat) : Bool := mode != 0
+/-- `if (WantNames()<=2)`: the name files are read -/
+def readsFiles (mode : Nat) : Bool := decide (mode ≤ 2)
+/-- `if (WantNames()>=2 || npv.number_read()+npc.number_read())`: names are given to the problem -/
+def setsNames (mode nrv nrc : Nat) : Bool := decide (mode ≥ 2) || (nrv + nrc != 0)
+/-- `SetObjNames`: index range into the row names (constraints first, then objectives) of the delivered objectives:
+`o1 = objno_used()-1`, `o2 = o1+1`, all objectives with `obj:multi` -/
+def objIdxRange (ncon nobj objno : Nat) (multi : Bool) : Nat × Nat :=
+  if multi then (ncon + 0, ncon + nobj) else (ncon + (objno - 1), ncon + (objno - 1 + 1))
+/-- `"_sobj[" + to_string(io-num_c+1) + ']'` -/
+def objGenericName (io ncon : Nat) : Name := genericName sobj (io - ncon + 1)
+
 /-- `ModelManagerWithProblemBuilder::ReadNames` + `SetObjNames` -/
 def readNamesModel (i : NamesIn) : NamesRes :=
-  if i.mode = 0 then .none else
-  let colr := if i.mode ≤ 2 then fileOffsets i.col else .ok []
+  if !(wantsNames i.mode) then .none else
+  let colr := if readsFiles i.mode then fileOffsets i.col else .ok []
   match colr with
   | .missingNewline => .error
   | .ok co =>
-  let rowr := if i.mode ≤ 2 then fileOffsets i.row else .ok []
+  let rowr := if readsFiles i.mode then fileOffsets i.row else .ok []
   match rowr with
   | .missingNewline => .error
   | .ok ro =>
     let cd := i.col.getD []
     let rd := i.row.getD []
-    if i.mode ≥ 2 ∨ numberRead co + numberRead ro ≠ 0 then
-      let vars := (List.range (i.nv + i.ndv)).map fun k => provName cd co svar sdvar k i.nv
-      let cons := (List.range i.ncon).map fun k => provName rd ro scon slogcon k i.nalg
-      let o1 := if i.multiobj then 0 else i.objno - 1
-      let o2 := if i.multiobj then i.nobj else i.objno
-      let objs := if i.nobj = 0 then [] else
-        ((List.range (o2 - o1)).map fun t =>
-          let io := i.ncon + o1 + t
-          if numberRead ro > io then (fileName rd ro io).getD (.name [])
-          else FileName.name (genericName sobj (io - i.ncon + 1)))
+    if setsNames i.mode (numberRead co) (numberRead ro) then
+      let va : Nat × Nat := (i.nv + i.ndv, i.nv)            -- npv.get_names(num_vars + num_common_exprs, num_vars)
+      let ca : Nat × Nat := (i.ncon, i.nalg)                -- npc.get_names(num_cons, num_algebraic_cons)
+      let vars := (List.range va.1).map fun k => provName cd co svar sdvar k va.2
+      let cons := (List.range ca.1).map fun k => provName rd ro scon slogcon k ca.2
+      let r := objIdxRange i.ncon i.nobj i.objno i.multiobj
+      let objs := if !(i.nobj != 0) then [] else
+        ((List.range (r.2 - r.1)).map fun t =>
+          let io := r.1 + t
+          if decide (numberRead ro > io) then (fileName rd ro io).getD (.name [])
+          else FileName.name (objGenericName io i.ncon))
       .names ⟨vars, cons, objs⟩
     else .none
 
